@@ -247,6 +247,7 @@ def run(chk, repo, tier):
     fr, rp, _ = analyse(repo, 'zernike.R')
     rets_r = [p for p in returns(rp) if not (isinstance(p.ret, Poly) and p.ret.is_zero())]
     okt = okl = False
+    seen_term = False
     det = ''
     # m, n inside R are int(abs(.)) of the arguments
     mm, nn = nf.app('abs', S('m')), nf.app('abs', S('n'))
@@ -277,6 +278,15 @@ def run(chk, repo, tier):
                             nf.app('pow', S('rho'), nn - 2 * kk)
                         okt = even_case(nf.strip_apps(e.data['value'], ('cast', 'float'))) == want
                         det = f'summand {fmt(e.data["value"])[:260]}'
+                        seen_term = True
+                        other = sorted({a[1] for a in nf.value_atoms(e.data['value']) if a[0] == 'app' and a[1] not in
+                                        ('factorial', 'pow', 'abs', 'floor', 'cast', 'float', 'int', 'math.factorial')})
+                        if not okt and other:
+                            # written with other functions (binomials, a sign selected by parity, ...): not compared
+                            okt, det = None, f'undecided: the summand uses {", ".join(other)[:80]}: {fmt(e.data["value"])[:160]}'
+    if not seen_term:
+        okt, det = None, 'undecided: no accumulation `R += term(k)` in a loop of R'
+        okl = None if not okl else okl
     chk.ob('C11-f', 'N-formula', fr.key, 'summand = (-1)^k (n-k)! / (k! ((n+m)/2-k)! ((n-m)/2-k)!) rho^(n-2k)', okt, det, fr.loc())
     chk.ob('C11-f', 'N-formula', fr.key, 'k runs over 0 .. (n-m)/2', okl, '', fr.loc())
 
